@@ -480,6 +480,11 @@ Fixpoint rd_loop_fix (w : nat) (ls : list string) (lineno bc bt : nat) (cont hnc
 Definition read_data_fix_from (w : nat) (bt : nat) (ls : list string) : list input * option rd_err :=
   rd_loop_fix w ls 0 0 bt false false [].
 
+Definition read_file_fix (w : nat) (bytes : string) : file_result :=
+  let fm := read_front_matters (file_lines bytes) in
+  let (ins, e) := read_data_fix_from w 0 (f_rest fm) in
+  mkFile (f_message fm) (f_title fm) ins e (overrun_count w (f_rest fm)).
+
 (* what a whole file (list of raw lines as iterated from the binary file) is read as *)
 Definition obs := (option string * list (nat * list string) * option rd_err)%type.
 
@@ -520,6 +525,7 @@ Definition within_limit (w : nat) (f : list string) : bool :=
    lines travel hex-encoded, joined by ',' ; "-" is the empty list
      data <w> <bt> <hexbytes>     read_data on the cleaned lines of the bytes (a sub-file)
      file <w> <hexbytes>          whole top-level file
+     filefix <w> <hexbytes>       the same with the reader carrying proposed repair C11-1
      spec <w> <hexbytes>          spec_cards on the cleaned lines after the front matter
      wf <w> <hexbytes>            wf_lines on the cleaned lines after the front matter
      logical <w> <hexbytes>       read_lines, read_lines_fix (title, logical inputs, error), amp_tidy, within_limit
@@ -554,6 +560,15 @@ Definition run_Lines (req : string) : string :=
       match parse_nat w with
       | Some W =>
           let r := read_file W (hex_decode h) in
+          (match fr_message r with None => "none" | Some m => "m" ++ show_list hex_encode m end) ++ " " ++
+          show_opt (fr_title r) ++ " " ++ show_inputs (fr_inputs r) ++ " " ++ show_err (fr_err r) ++ " " ++
+          show_nat (fr_warn r)
+      | None => "parse:err"
+      end
+  | ["filefix"; w; h] =>
+      match parse_nat w with
+      | Some W =>
+          let r := read_file_fix W (hex_decode h) in
           (match fr_message r with None => "none" | Some m => "m" ++ show_list hex_encode m end) ++ " " ++
           show_opt (fr_title r) ++ " " ++ show_inputs (fr_inputs r) ++ " " ++ show_err (fr_err r) ++ " " ++
           show_nat (fr_warn r)
